@@ -160,9 +160,9 @@ def _genset_cases(tier):
             for ti, total in enumerate(totals):
                 if total > 14:
                     continue
-                if quick and n == 4 and (idx + ti) % 3:
+                if quick and n == 4 and (idx + ti) % 6:
                     continue
-                if quick and n == 3 and (idx + ti) % 2:
+                if quick and n == 3 and (idx + ti) % 4:
                     continue
                 # the base configuration in both weight types
                 yield _gs(nums, total, "int")
@@ -188,6 +188,38 @@ def _genset_cases(tier):
                     yield _gs(nums[:-1], total, "int", parts=[[nums[-1], total - nums[-1]]])
                 total = mx + 2
                 yield _gs(nums, total, "int" if idx % 2 == 0 else "float", parts=[[1, total - 1], [2, total - 2]] if idx % 2 else [[total - mx, mx]])
+    # two or more partition constraints at once: EVERY constraint must be a partition of the multiset (each element exactly once per constraint)
+    def _partitions(total, parts, lo=1):
+        if parts == 1:
+            if total >= lo:
+                yield [total]
+            return
+        for a in range(lo, total // parts + 1):
+            for rest in _partitions(total - a, parts - 1, a):
+                yield [a] + rest
+    pi = 0
+    for total in ((6,) if quick else (5, 6, 7, 8)):
+        ps = [p for r in (2, 3) for p in _partitions(total, r)]
+        for c1 in ps:
+            for c2 in ps:
+                if c1 == c2:
+                    continue
+                pi += 1
+                yield _gs([], total, "int" if pi % 3 else "float", parts=[c1, c2])
+                if pi % 4 == 0:
+                    yield _gs([ps[pi % len(ps)][0]], total, "float" if pi % 3 else "int", parts=[c2, c1[::-1]])
+                if pi % 7 == 0 or not quick:
+                    yield _gs([1, total - 2], total, "int", parts=[c1, c2])
+        two = [p for p in ps if len(p) == 2]
+        for i in range(len(two)):
+            trip = [two[i], two[(i + 1) % len(two)], two[(i + 2) % len(two)]]
+            if len(two) >= 3:
+                yield _gs([], total, "int" if i % 2 else "float", parts=trip)
+                yield _gs([two[i][0]], total, "int", parts=trip[::-1])
+    yield _gs([], 6, "int", parts=[[2, 2, 2], [1, 2, 3]])
+    yield _gs([3], 6, "float", parts=[[2, 2, 2], [1, 2, 3]])
+    yield _gs([2, 3], 6, "int", parts=[[1, 2, 3], [2, 2, 2], [3, 3]])
+    yield _gs([1.5], 6, "float", parts=[[1.5, 4.5], [3, 3]])
     # curated: duplicated numbers, number == total, witnesses of D1''
     for c in (_gs([1, 2, 4], 7, "float"), _gs([1, 2, 4], 7, "int"), _gs([3], 10, "float"), _gs([3], 10, "int"), _gs([2, 2, 3], 7, "int"),
               _gs([5, 5], 5, "int"), _gs([1, 1, 1, 1], 4, "int"), _gs([7], 7, "float"), _gs([1, 2, 3], 3, "int"), _gs([1, 3], 2, "float", m=2),
@@ -223,12 +255,19 @@ def _setcover_cases(tier):
                     yield dict(kind="setcover", universe=universe, subsets=subsets, weights=None)
                 if idx % 7 == 0:
                     yield dict(kind="setcover", universe=universe, subsets=subsets[::-1], weights=[w[(i + 1) % n] for i in range(n)])
+                if idx % 4 == 1:
+                    zp = ([0, 1, 1.5, 0, 2], [1.5, 0, 1, 2.5, 0], [0, 0, 1, 0.5, 3], [2, 1, 0, 1, 0.5])[(idx // 4) % 4]
+                    yield dict(kind="setcover", universe=universe, subsets=subsets, weights=[zp[(i + idx) % 5] for i in range(n)])
     # curated: string elements, duplicated subsets, duplicated universe elements, a subset with foreign elements
     yield dict(kind="setcover", universe=["a", "b", "c"], subsets=[["a"], ["b", "c"], ["a", "b"], ["c"]], weights=[1, 3, 1, 1])
     yield dict(kind="setcover", universe=["a", "b", "c"], subsets=[["a"], ["b", "c"]], weights=None)
     yield dict(kind="setcover", universe=[0, 1, 1, 2], subsets=[[0, 1], [0, 1], [2], [1, 2]], weights=[2, 1, 1, 3])
     yield dict(kind="setcover", universe=[0, 1], subsets=[[0, 9], [1, 9], [0, 1, 9]], weights=[1, 1, 3])
     yield dict(kind="setcover", universe=[0, 1], subsets=[[0, 9], [1, 9], [0, 1, 9]], weights=[1, 1, 2])
+    yield dict(kind="setcover", universe=[1, 2, 3], subsets=[[1, 2], [3], [1, 2, 3]], weights=[0, 1, 1.5])
+    yield dict(kind="setcover", universe=[1, 2, 3], subsets=[[1, 2], [3], [1, 2, 3]], weights=[0, 2, 1.5])
+    yield dict(kind="setcover", universe=[1, 2, 3], subsets=[[1], [2], [3], [1, 2, 3]], weights=[0, 0, 0, 0.5])
+    yield dict(kind="setcover", universe=[1, 2], subsets=[[1], [2], [1, 2]], weights=[0.5, 0.5, 0])
     # found by the thorough tier: HiGHS returns 1.0000000000000002 for a chosen subset (D15, exact `== 1` on a float)
     yield dict(kind="setcover", universe=[0, 1, 2, 3, 4], subsets=[[0, 3], [0, 1, 2], [0, 2, 4], [1, 2, 4], [1, 3, 4]], weights=[2, 2, 1, 3, 3])
     yield dict(kind="setcover", universe=[0, 1, 2, 3, 4], subsets=[[1, 2], [0, 1, 3], [0, 1, 4], [2, 3, 4], [0, 1, 3, 4]], weights=[2, 2, 1, 3, 3])
@@ -360,7 +399,7 @@ def _check_setcover(case):
         if not any(e in subsets[i] for i in sol):
             return dict(ok=False, nontrivial=True, fingerprint="MinSetCover solution does not cover the universe", what="element %r uncovered by %s on %s" % (e, sol, inst), detail=dict(solution=sol))
     got = sum(w[i] for i in sol)
-    if got != opt:
+    if abs(got - opt) > 1e-9:
         return dict(ok=False, nontrivial=True, fingerprint="MinSetCover solution is not of minimum total weight", what="indices %s weigh %s, oracle minimum %s on %s" % (sol, got, opt, inst),
                     detail=dict(solution=sol, oracle=opt))
     as_sets = model.get_solution(as_subsets=True)
@@ -381,9 +420,10 @@ def run(tier="quick", seed=0, chunk=0, nchunks=1):
     from vf.bounded import run_cases
     return run_cases(cases(tier), check, chunk, nchunks, engine="rc",
                      rule="MinGenSet: every subset of 1..9 with <=4 numbers (quick: strided for 3 and 4 numbers) x totals {max, max+1, max+3, sum} <= 14 x weight type, "
-                          "max_multiplicity 1..2, lower bounds 2..3, halved (non-integer) float lists, partition constraints, curated duplicates / D1'' witnesses; "
+                          "max_multiplicity 1..2, lower bounds 2..3, halved (non-integer) float lists, single partition constraints, every ordered pair of distinct partitions of 6 "
+                          "(thorough: 5..8) into 2-3 parts and triples of 2-part partitions as simultaneous constraints (empty and small number lists), curated duplicates / D1'' witnesses; "
                           "oracle = plain enumeration of integer multisets, exact z3 decision for real values (witness re-verified in Fractions, k-1 unsat), cross-checked on integer cases; "
-                          "MinSetCover: universes 1..5, strided families of 1..5 non-empty subsets with a cover, weights 1..3 patterns and default weights, oracle = all 2^n sub-families; "
+                          "MinSetCover: universes 1..5, strided families of 1..5 non-empty subsets with a cover, weights 1..3 patterns, default weights, and mixed int/float patterns containing 0, oracle = all 2^n sub-families; "
                           "non-trivial = optimum >= 2 (MinGenSet) / more than one subset (MinSetCover)",
-                     bounds="numbers subset of 1..9, <=4 numbers, total<=14, multiplicity<=2, generating sets <=%d values; universes<=5, <=5 subsets, weights 1..3" % KMAX,
+                     bounds="numbers subset of 1..9, <=4 numbers, total<=14, multiplicity<=2, generating sets <=%d values; universes<=5, <=5 subsets, weights in {0,0.5,1,1.5,2,2.5,3}" % KMAX,
                      exhaustive=False)
